@@ -230,6 +230,11 @@ func (l *listener) readLoop() {
 
 			return
 		}
+		if n == 0 {
+			// A zero-length datagram carries no DTLS record. Queued for a connection it
+			// would read back as io.EOF and end that connection's read loop.
+			continue
+		}
 		conn, ok, err := l.getConn(raddr, buf[:n])
 		if err != nil {
 			continue
